@@ -152,39 +152,44 @@ def monitor_cells(ops):
 
 
 # ---------------------------------------------------------------- compression (C10 and the compressed paths of C01 C02 C03 C12 C13)
-B_COMP = ('sizes in [0|1,70000] (2500 in the AUTO cells: the sampling loop of estimate_compression runs once per KiB); '
-          'compressed length of every object symbolic in [2,70000], independent of its size; bytes emitted by the first '
-          'compress() call symbolic; ')
-S_CPACK = [dict(pz=True, h0=2, sp=100, zp=50, s0=0, z0=8, s1=2400, z1=300, early=7, target=10**5),
-           dict(pz=False, h0=0, sp=2000, zp=50, s0=2200, z0=2300, s1=1500, z1=300, early=0, target=100)]
-S_CREPACK = [dict(h0=2, s0=2400, z0=300, f0=True, s1=5, z1=13, f1=False, early=3),
-             dict(h0=0, s0=1500, z0=300, f0=False, s1=50, z1=47, f1=True, early=0)]
-S_CDIRECT = [dict(h0=1, s0=100, z0=50, s1=66000, z1=300, s2=5, z2=13, early=3, target=10**6, read_twice=True),
-             dict(h0=1, s0=100, z0=50, s1=66000, z1=300, s2=0, z2=13, early=0, target=320, read_twice=False)]
-CPACK = [cell('cpack_check_' + m, 'harness.g_comp', 'cpack_check_' + m, (500, 1500), samples=S_CPACK,
-              bounds=B_COMP + 'pack_all_loose(compress=%s) from a pack holding a compressed or plain object; symbolic pack target' % m)
-         for m in ('yes', 'no', 'keep', 'auto', 'true', 'false')]
-CREPACK = [cell('crepack_check_' + m, 'harness.g_comp', 'crepack_check_' + m, (500, 1500), samples=S_CREPACK,
+B_COMP = ('one object of size in [1,70000] (AUTO cells: size 2000 and compressed length 300 or 1800 literal -- the ratio tests are float divisions) with a compressed '
+          'length symbolic in [2,70000] independent of its size; the other objects literal (0 and 3 bytes, compressed '
+          'lengths 2 and 4); 1 byte emitted by the first compress() call; ')
+S_COMP = [dict(s1=2000, z1=300, target=2500), dict(s1=66000, z1=1900, target=3)]
+S_CREPACK = [dict(s1=2000, z1=300, f0=True, f1=False), dict(s1=66000, z1=1900, f0=False, f1=True)]
+S_CDIRECT = [dict(s1=66000, z1=300, target=70000, read_twice=True), dict(s1=66000, z1=300, target=320, read_twice=False)]
+_CM = ('yes', 'no', 'keep', 'auto300', 'auto1800', 'true', 'false')
+CPACK = [cell('cpack_check_%s_%s' % (m, f), 'harness.g_comp', 'cpack_check_%s_%s' % (m, f), (500, 1500),
+              samples=[dict(target=2500), dict(target=3)] if m.startswith('auto') else S_COMP,
+              bounds=B_COMP + 'pack_all_loose(compress=%s) next to a %s packed object; symbolic pack target' % (m, 'compressed' if f == 'z' else 'plain'))
+         for m in _CM for f in ('z', 'p')]
+CREPACK = [cell('crepack_check_' + m, 'harness.g_comp', 'crepack_check_' + m, (500, 1500),
+                samples=[dict(f0=True, f1=False), dict(f0=False, f1=True)] if m.startswith('auto') else S_CREPACK,
                 bounds=B_COMP + 'repack(%s) of a pack with holes holding two objects in symbolic forms' % m)
-           for m in ('yes', 'no', 'keep', 'auto')]
-CREPACK2 = [cell('crepack2_%s_%s' % (a, b), 'harness.g_comp', 'crepack2_%s_%s' % (a, b), (900, 1800), samples=S_CREPACK,
+           for m in ('yes', 'no', 'keep', 'auto300', 'auto1800')]
+CREPACK2 = [cell('crepack2_%s_%s' % (a, b), 'harness.g_comp', 'crepack2_%s_%s' % (a, b), (900, 1800),
+                 samples=[dict(f0=True, f1=False), dict(f0=False, f1=True)] if 'auto' in (a, b) else S_CREPACK,
                  thorough_only=True, bounds=B_COMP + 'two chained repacks (%s then %s)' % (a, b))
             for a in ('yes', 'no', 'keep', 'auto') for b in ('yes', 'no', 'keep', 'auto')]
 CDIRECT = [cell('cdirect_check_p%d_%s' % (d, nh), 'harness.g_comp', 'cdirect_check_p%d_%s' % (d, nh), (500, 1500), samples=S_CDIRECT,
                 bounds=B_COMP + 'add_streamed_objects_to_pack(compress=True), duplicate at batch position %d, %s' % (d, nh))
            for d in (0, 1, 2, 3) for nh in ('noholes', 'holes')]
-COMP_REACH = [cell('cpack_reach_yes', 'harness.g_comp', 'cpack_reach_yes', (200, 400), expect='REFUTED'),
-              cell('crepack_reach_auto', 'harness.g_comp', 'crepack_reach_auto', (200, 400), expect='REFUTED'),
+COMP_REACH = [cell('cpack_reach_yes_z', 'harness.g_comp', 'cpack_reach_yes_z', (200, 400), expect='REFUTED'),
+              cell('crepack_reach_auto300', 'harness.g_comp', 'crepack_reach_auto300', (200, 400), expect='REFUTED'),
               cell('cdirect_reach_p1_noholes', 'harness.g_comp', 'cdirect_reach_p1_noholes', (200, 400), expect='REFUTED')]
 SHOULD = [
     cell('should_modes', 'harness.h_comp', 'should_modes', (300, 900), bounds='YES/NO/KEEP; length,size in [0,300000]; stream position symbolic',
          samples=[dict(mode=2, source_compressed=True, length=50, size=100, spos=3, zs=20, z=30)]),
-    cell('should_auto_packed', 'harness.h_comp', 'should_auto_packed', (300, 900), bounds='AUTO on a compressed source: decision = length/size < 0.9 (size 0: never)',
-         samples=[dict(length=95, size=100, spos=100, zs=20, z=30), dict(length=0, size=0, spos=0, zs=20, z=30)]),
-    cell('should_auto_small', 'harness.h_comp', 'should_auto_small', (500, 1200), bounds='AUTO on an uncompressed source of <= 16 KiB: position restored',
-         samples=[dict(size=3000, spos=7, zs=20, z=30), dict(size=0, spos=0, zs=20, z=30)]),
-    cell('should_auto_big', 'harness.h_comp', 'should_auto_big', (500, 1200), bounds='AUTO on an uncompressed source of 128 KiB .. 300000 bytes (128 samples): position restored',
-         samples=[dict(size=200000, spos=5, zs=20, z=30)]),
+] + [
+    cell('should_auto_packed_%d' % size, 'harness.h_comp', 'should_auto_packed_%d' % size, (300, 900),
+         bounds='AUTO on a compressed source of size %d (literal: the ratio test divides by it), stored length symbolic: decision = length/size < 0.9 (size 0: never)' % size,
+         samples=[dict(length=size * 9 // 10, spos=0, zs=20, z=30), dict(length=size, spos=size, zs=20, z=30)])
+    for size in (0, 1, 10, 1000, 299999)
+] + [
+    cell('should_auto_plain_%d' % size, 'harness.h_comp', 'should_auto_plain_%d' % size, (400, 900),
+         bounds='AUTO on an uncompressed source of size %d (literal), symbolic stream position, sample compressing to 10 or to 400000 bytes: position restored' % size,
+         samples=[dict(spos=0, worth=True), dict(spos=size, worth=False)])
+    for size in (0, 1, 1023, 1024, 1025, 5000, 131071, 131072, 131073, 200000, 300000)
 ]
 F_COMP = ['utils.should_compress', 'utils.estimate_compression', 'utils.get_compressobj_instance',
           'utils._get_compression_algorithm_info', 'utils.ZlibStreamDecompresser', 'Container.repack', 'Container.repack_pack',
@@ -236,24 +241,53 @@ F_READ = [
     'Container.count_objects', 'utils.PackedObjectReader',
 ]
 
+CPACK_YES = [c for c in CPACK if c['name'].startswith(('cpack_check_yes', 'cpack_check_auto300'))]
+DELETE_CHUNKS = [
+    cell('delete_chunks', 'harness.h_delete', 'delete_chunks', (500, 1500), bounds=B_DELETE + '; _IN_SQL_MAX_LENGTH in [1,3]; obj2/obj3 compressed or plain',
+         samples=[dict(h0=2, s0=66000, s2=300, d0=True, d1=True, d2=False, d3=True, dabs=True, in_max=1, z2=True, z3=False, zl=30),
+                  dict(h0=0, s0=5, s2=9, d0=False, d1=False, d2=True, d3=False, dabs=False, in_max=2, z2=False, z3=True, zl=5)]),
+    cell('delete_repack_pack', 'harness.h_delete', 'delete_repack_pack', (500, 1500), bounds=B_DELETE + '; as delete_chunks, then repack_pack(0) alone and a NEW handle',
+         samples=[dict(h0=2, s0=66000, s2=300, d0=True, d1=True, d2=False, d3=True, dabs=True, in_max=1, z2=True, z3=False, zl=30)]),
+]
+IMPORT_FORMS = [c for c in IMPORT if c['name'].startswith('imp_forms_')]
+IMPORT_DEDUP = [c for c in IMPORT if c['name'].startswith(('imp_target_', 'imp_kind_s256_s256_list_nocb', 'imp_kind_s1_s256_list_nocb'))]
+IMPORT_TARGET = [c for c in IMPORT if c['name'].startswith('imp_target_')]
+ZREAD = [cell('zread_small', 'harness.h_zread', 'zread_small', (540, 1500), bounds=B_ZREAD + '; 0 <= a <= 524288', samples=[S_ZREAD], replay_mode='model'),
+         cell('zread_big', 'harness.h_zread', 'zread_big', (540, 1500), bounds=B_ZREAD + '; 524288 < a <= 2100000',
+              samples=[dict(S_ZREAD, a=600000, tape=[0, 40, 100])], replay_mode='model')]
+CFG = [cell('cfg_%s_p%d' % (ht, pl), 'harness.h_cfg', 'cfg_%s_p%d' % (ht, pl), (400, 1200),
+            bounds='hash_type=%s, loose_prefix_len=%d: add loose (bytes and stream), pack_all_loose, direct to pack, read back through every view; sizes in [0|1,70000]' % (ht, pl),
+            samples=[dict(s0=0, s1=66000, s2=5), dict(s0=7, s1=3, s2=66000)])
+       for ht in ('sha1', 'sha256') for pl in (0, 1, 2, 3)]
+INIT = [cell('init_refused', 'harness.h_cfg', 'init_refused', (300, 900), bounds='init_container on an initialised container (symbolic arguments) raises and changes nothing; init on an empty folder gives an empty valid container',
+             samples=[dict(s0=5, clear=False, target=100, prefix=2)])]
+
 CHECKS = {
     'C01': dict(
-        cells=PACK_VIEWS + DIRECT_VIEWS + LOOSE_VIEWS + PACK_REACH + DIRECT_REACH,
-        functions=F_WRITE + F_READ,
-        assumptions=['write paths covered: loose from a stream, direct to pack (batch, with duplicates, no_holes '
-                     'variants), pack_all_loose; compress=False only; hash type sha256 in the model (key length only)'],
+        cells=PACK_VIEWS + DIRECT_VIEWS + LOOSE_VIEWS + PACK_REACH + DIRECT_REACH + CPACK_YES + CDIRECT + CFG,
+        functions=F_WRITE + F_READ + F_COMP,
+        assumptions=['write paths covered: loose from bytes and from a stream (incl. a short first read), direct to pack '
+                     '(batch, with duplicates, no_holes variants, compress=True), pack_all_loose (compress NO/YES); read back '
+                     'whole, in bulk, by metadata and listing; configurations: hash type sha1/sha256 and loose_prefix_len 0..3 '
+                     'in the cfg_* cells (the other cells: sha256, prefix 2); chunked read(n) of the returned streams: see C07',
+                     A_COMP],
     ),
     'C02': dict(
-        cells=PACK_VIEWS + PACK_VALIDATE + DIRECT_VIEWS + LOOSE_VIEWS + PACK_REACH,
-        functions=F_WRITE + F_READ,
-        assumptions=['one inductive step per operation from a symbolic pre-state (a pack with holes and one packed '
-                     'object, loose objects); operations covered: add loose, add direct to pack, pack_all_loose, '
-                     'clean_storage; repack/import/delete are not covered by this check (delete: see C11)'],
+        cells=PACK_VIEWS + PACK_VALIDATE + DIRECT_VIEWS + LOOSE_VIEWS + PACK_REACH + DELETE_CHUNKS + CREPACK + IMPORT_FORMS + INIT,
+        functions=F_WRITE + F_READ + ['Container.delete_objects', 'Container.repack', 'Container.repack_pack',
+                                      'Container.import_objects', 'Container.init_container'],
+        assumptions=['one inductive step per operation from a symbolic pre-state (a pack with holes and packed objects, '
+                     'plain or compressed, loose objects); operations covered: add loose, add direct to pack, pack_all_loose, '
+                     'clean_storage, delete_objects (request split into SQL IN-chunks), repack (all modes), repack_pack on '
+                     'its own followed by a NEW handle, import_objects (source x destination forms), refused '
+                     're-initialisation; loosen_object only through the seeking readers of C04/C12', A_COMP],
     ),
     'C03': dict(
-        cells=PACK_INV + DIRECT_INV + LOOSE_INV + PACK_REACH + DIRECT_REACH,
-        functions=F_WRITE,
-        assumptions=['invariant evaluated library-free on index rows and byte slices; uncompressed objects only'],
+        cells=PACK_INV + DIRECT_INV + LOOSE_INV + PACK_REACH + DIRECT_REACH + CPACK_YES + CREPACK + CDIRECT + DELETE_CHUNKS,
+        functions=F_WRITE + F_COMP + ['Container.delete_objects'],
+        assumptions=['invariant evaluated library-free on index rows and byte slices: every row inside an existing pack, no '
+                     'overlap, no key twice, range = the content (uncompressed: length == size) or a complete compressed '
+                     'stream inflating to it, recorded size = content length; loose file name = digest of its bytes', A_COMP],
     ),
     'C04': dict(
         cells=[
@@ -330,14 +364,16 @@ CHECKS = {
             cell('zread_reach', 'harness.h_zread', 'zread_reach', (200, 400), bounds=B_ZREAD, expect='REFUTED'),
             cell('zseek_zero', 'harness.h_zread', 'zseek_zero', (540, 1500), bounds=B_ZREAD + '; seek(0,0) then read(a), a <= 600000', replay_mode='model',
                  samples=[dict(n=100, total=40, before=1, pos=10, c=20, u=0, a=7, tape=[30, 10, 7])]),
-            cell('zseek_back', 'harness.h_zread', 'zseek_back', (540, 1500), bounds='n <= 200000; symbolic stream state; seek(t,0) with -2 <= t < pos then read(a <= 1000); tape <= 7', replay_mode='model',
-                 samples=[dict(n=100, total=40, before=1, pos=10, c=20, u=0, t=5, a=7, tape=[30, 10, 5, 0, 5, 20, 2])]),
-            cell('zseek_fwd', 'harness.h_zread', 'zseek_fwd', (540, 1500), bounds='n <= 200000; symbolic stream state; seek(t,0) with pos <= t <= n+10 then read(a <= 1000); tape <= 7', replay_mode='model',
-                 samples=[dict(n=100, total=40, before=1, pos=10, c=20, u=0, t=50, a=7, tape=[30, 20, 40])]),
-            cell('zseek_rel', 'harness.h_zread', 'zseek_rel', (540, 1500), bounds='n <= 200000; symbolic stream state; seek(t,1) then read(a <= 1000); tape <= 7', replay_mode='model',
-                 samples=[dict(n=100, total=40, before=1, pos=10, c=20, u=0, t=-5, a=7, tape=[30, 10, 5, 0, 5, 20, 2])]),
-            cell('zseek_far', 'harness.h_zread', 'zseek_far', (540, 1500), bounds='n in [262000,600000]; initial stream state; seek(t,0) across the 256 KiB step of _seek_internal; tape <= 9', replay_mode='model',
-                 samples=[dict(n=300000, total=40, t=280000, a=7, tape=[40, 262144, 0, 17856, 0, 7])]),
+            cell('zseek_back', 'harness.h_zread', 'zseek_back', (540, 1500), bounds='n <= 200000; symbolic stream state; seek(t,0) with -2 <= t < pos, stream invariant afterwards; tape <= 5', replay_mode='model',
+                 samples=[dict(n=100, total=40, before=1, pos=10, c=20, u=0, t=5, tape=[30, 10, 5])]),
+            cell('zseek_fwd', 'harness.h_zread', 'zseek_fwd', (540, 1500), bounds='n <= 200000; symbolic stream state; seek(t,0) with pos <= t <= n+10, stream invariant afterwards; tape <= 5', replay_mode='model',
+                 samples=[dict(n=100, total=40, before=1, pos=10, c=20, u=0, t=50, tape=[30, 20, 40])]),
+            cell('zseek_rel_back', 'harness.h_zread', 'zseek_rel_back', (540, 1500), bounds='n <= 200000; symbolic stream state; seek(t,1) with t < 0, stream invariant afterwards; tape <= 5', replay_mode='model',
+                 samples=[dict(n=100, total=40, before=1, pos=10, c=20, u=0, t=-5, tape=[30, 10, 5])]),
+            cell('zseek_rel_fwd', 'harness.h_zread', 'zseek_rel_fwd', (540, 1500), bounds='n <= 200000; symbolic stream state; seek(t,1) with t >= 0, stream invariant afterwards; tape <= 5', replay_mode='model',
+                 samples=[dict(n=100, total=40, before=1, pos=10, c=20, u=0, t=40, tape=[30, 20, 40])]),
+            cell('zseek_far', 'harness.h_zread', 'zseek_far', (540, 1500), bounds='n in [262000,600000]; initial stream state; seek(t,0) across the 256 KiB step of _seek_internal, stream invariant afterwards; tape <= 6', replay_mode='model',
+                 samples=[dict(n=300000, total=40, t=280000, tape=[40, 262144, 0, 17856])]),
             cell('zseek_reach', 'harness.h_zread', 'zseek_reach', (300, 600), expect='REFUTED'),
         ],
         functions=['utils.PackedObjectReader.__init__/seek/tell/read/_update_pos',
@@ -365,10 +401,12 @@ CHECKS = {
                      'query2 on H; SQLite WAL snapshot isolation modelled by pinned committed versions'],
     ),
     'C09': dict(
-        cells=DIRECT_INV + LOOSE_INV + DIRECT_REACH,
-        functions=F_WRITE,
-        assumptions=['duplicates of already packed content at any batch position, duplicate inside the batch, known '
-                     'content re-added loose (existing copy loose/packed/both, possibly damaged)'],
+        cells=DIRECT_INV + LOOSE_INV + DIRECT_REACH + CDIRECT + IMPORT_DEDUP,
+        functions=F_WRITE + ['Container.import_objects', 'Container.add_streamed_object_to_pack'],
+        assumptions=['duplicates of already packed content at any batch position, duplicate inside the batch (plain and '
+                     'compress=True), known content re-added loose (existing copy loose/packed/both, possibly damaged, '
+                     'up to 6 MiB), import of objects the destination already holds (same and different hash type, incl. '
+                     'the streamed bypass for objects above target_memory_bytes)'],
     ),
     'C10': dict(
         cells=CPACK + CREPACK + CREPACK2 + CDIRECT + COMP_REACH + SHOULD,
@@ -380,13 +418,15 @@ CHECKS = {
                      'cells bounded to objects <= 2500 bytes (3 sampling iterations)'],
     ),
     'C11': dict(
-        cells=DELETE_REPACK + DELETE_VIEWS + DELETE_REACH,
+        cells=DELETE_REPACK + DELETE_VIEWS + DELETE_REACH + DELETE_CHUNKS,
         functions=['Container.delete_objects', 'Container.repack', 'Container.repack_pack', 'utils.should_compress (KEEP)']
         + F_READ,
-        assumptions=['repack with the default CompressMode.KEEP on uncompressed objects; stray duplicates/ files not covered'],
+        assumptions=['repack with the default CompressMode.KEEP; compressed and plain packed objects; the request split into '
+                     'SQL IN-chunks of 1..3 keys (symbolic _IN_SQL_MAX_LENGTH); repack_pack on its own + new handle; stray '
+                     'duplicates/ files not covered'],
     ),
     'C12': dict(
-        cells=PACK_VALIDATE + DELETE_REPACK + DAMAGE,
+        cells=PACK_VALIDATE + DELETE_REPACK + DAMAGE + CPACK_YES + CREPACK,
         functions=['Container.validate', 'Container._validate_hashkeys_pack'] + F_WRITE,
         assumptions=['no false positives: validate() clean after pack_all_loose/clean_storage and after delete+repack from '
                      'the symbolic pre-states; no false negatives: ONE damage (loose file replaced by junk of symbolic length; '
@@ -398,10 +438,11 @@ CHECKS = {
                      'codec error), `compressed` flag flips, pack_id perturbations, doubly stored (loose + packed) objects'],
     ),
     'C13': dict(
-        cells=PACK_INV + DIRECT_INV + PACK_REACH + DIRECT_REACH,
-        functions=F_WRITE,
+        cells=PACK_INV + DIRECT_INV + PACK_REACH + DIRECT_REACH + CPACK + CDIRECT + IMPORT_TARGET,
+        functions=F_WRITE + F_COMP + ['Container.import_objects'],
         assumptions=['pre-state: one pack (possibly already above the target) with holes; symbolic pack_size_target so '
-                     'that the pack switch falls anywhere in the batch'],
+                     'that the pack switch falls anywhere in the batch; pack_all_loose with every compress mode, direct to '
+                     'pack plain and compressed, import into a destination with a symbolic pack target'],
     ),
     'C14': dict(
         cells=IMPORT,
@@ -417,18 +458,18 @@ CHECKS = {
     ),
     'C15': dict(
         cells=[
-            cell('backup_sched_%s_%s' % (wl, cl), 'harness.h_backup', 'backup_sched_%s_%s' % (wl, cl), (600, 1500),
-                 bounds='live container: 2 loose + 1 packed object; another client adds a loose object (ta), packs all '
-                 '(tp, clean_loose_per_pack=%s), cleans (tc >= tp), writes directly to a pack (td), each a whole operation at an '
+            cell('backup_sched_%s_%s_a%d_d%d' % (wl, cl, ta, td), 'harness.h_backup', 'backup_sched_%s_%s_a%d_d%d' % (wl, cl, ta, td), (500, 1500),
+                 bounds='live container: 2 loose + 1 packed object; another client adds a loose object (instant %d), packs all '
+                 '(tp, clean_loose_per_pack=%s), cleans (tc >= tp), writes directly to a pack (instant %d), each a whole operation at an '
                  'instant in [5,11] of the backup clock (before each of: loose copy, index dump, dump transfer, packs copy, copy '
-                 'of the rest, rename; 11 = after); %s; s0 in [1,70000]' % (cl == 'clean', 'a further client keeps an index '
+                 'of the rest, rename; 11 = after); %s; s0 in [1,70000]' % (ta, cl == 'clean', td, 'a further client keeps an index '
                  'connection open all the time' if wl == 'wal' else 'no other connection besides the acting client'),
-                 samples=[dict(s0=66000, ta=5, tp=6, tc=7, td=9), dict(s0=5, ta=7, tp=5, tc=5, td=11)])
-            for wl in ('nowal', 'wal') for cl in ('keep', 'clean')
+                 samples=[dict(s0=66000, tp=6, tc=7), dict(s0=5, tp=5, tc=5), dict(s0=5, tp=8, tc=9)])
+            for wl in ('nowal', 'wal') for cl in ('keep', 'clean') for ta in (5, 8) for td in (5, 9, 11)
         ] + [
             cell('backup_again', 'harness.h_backup', 'backup_again', (900, 1800), thorough_only=True,
                  bounds='two successive backups (the second incremental on the first), events during the first',
-                 samples=[dict(s0=66000, wal=False, tp=6, tc=7, td=8, cl=False)]),
+                 samples=[dict(s0=66000, wal=False, tp=6, tc=7, cl=False)]),
             cell('backup_reach', 'harness.h_backup', 'backup_reach', (300, 600), expect='REFUTED'),
         ],
         functions=['backup_utils.backup_container', 'backup_utils.BackupManager.__init__/call_rsync/run_cmd/backup_auto_folders/'
@@ -491,10 +532,14 @@ CHECKS = {
                      'demanded after an interrupted repack); operations as C05'],
     ),
     'C18': dict(
-        cells=PACK_INV + PACK_VIEWS + DIRECT_INV + LOOSE_INV,
-        functions=F_WRITE + ['Container.close'],
+        cells=PACK_INV + PACK_VIEWS + DIRECT_INV + DIRECT_VIEWS + LOOSE_INV + LOOSE_VIEWS + ZREAD,
+        functions=F_WRITE + F_READ + ['Container.close', 'Container._close_operation_session',
+                                      'utils.ZlibLikeBaseStreamDecompresser._read_compressed'],
         assumptions=['descriptor census of the model descriptor table (files, directory descriptors, fcntl duplicates): '
                      'no growth over an operation, zero after close(); at most one pack-or-loose file open at any time during the bulk '
-                     'and single reads of the views cells (model descriptor table high-water mark); memory / chunking clause not decided'],
+                     'and single reads of the views cells (model descriptor table high-water mark); index connections are '
+                     'descriptors too (opened at the first statement of a session, released only by engine.dispose()); chunking '
+                     'clause: what the streaming decompresser keeps buffered after read(a) is bounded by the request (zread_* '
+                     'cells, nondeterministic zlib contract); process RSS is not decided by this technique'],
     ),
 }
